@@ -15,9 +15,12 @@ import time
 import traceback
 
 ROOT = os.path.dirname(os.path.dirname(os.path.abspath(__file__)))
-REPO_SRC = "/repo/src/"
-EVIDENCE_DIR = os.path.join(ROOT, "evidence")
-REPLAY_DIR = os.path.join(ROOT, "replays")
+# VZ_SRC (tooling only: mutant / seeded-change runs in scratch worktrees) points the
+# checks at another source tree; registered commands never set it.
+REPO_SRC = os.path.join(os.path.realpath(os.environ.get("VZ_SRC") or "/repo/src"), "")
+_OUT = os.environ.get("VZ_OUT") or ROOT          # tooling only, like VZ_SRC
+EVIDENCE_DIR = os.path.join(_OUT, "evidence")
+REPLAY_DIR = os.path.join(_OUT, "replays")
 FINDINGS_FILE = os.path.join(ROOT, "known_findings.json")
 
 EXIT_OK, EXIT_VIOLATION, EXIT_HARNESS = 0, 1, 3
@@ -247,14 +250,21 @@ def pmap(func, shards, acc=None, jobs=None, shard_budget=900.0):
 # known findings
 
 def load_findings(prop):
-    if not os.path.exists(FINDINGS_FILE):
-        return []
-    with open(FINDINGS_FILE) as f:
-        data = json.load(f)
+    """Open findings for `prop` from known_findings.json and findings.d/*.json
+    (committed files; never written at run time)."""
+    files = []
+    if os.path.exists(FINDINGS_FILE):
+        files.append(FINDINGS_FILE)
+    d = os.path.join(ROOT, "findings.d")
+    if os.path.isdir(d):
+        files += [os.path.join(d, n) for n in sorted(os.listdir(d)) if n.endswith(".json")]
     out = []
-    for e in data.get("findings", []):
-        if e.get("property") == prop and e.get("status", "open") == "open":
-            out.append(e)
+    for fn in files:
+        with open(fn) as f:
+            data = json.load(f)
+        for e in data.get("findings", []):
+            if e.get("property") == prop and e.get("status", "open") == "open":
+                out.append(e)
     return out
 
 
